@@ -38,8 +38,9 @@ type c12World struct {
 	sg           *lastgersync.LastGERSync
 	mainLeaves   []common.Hash
 	l2Leaves     []common.Hash
-	lax          bool        // verifications are not always followed by an L1 info update
-	initialRoot  common.Hash // mainnet / rollup exit root the GER contract reports before the first deposit / verification
+	foreignHad   map[uint32]map[common.Hash]bool // exit roots each foreign rollup has reported
+	lax          bool                            // verifications are not always followed by an L1 info update
+	initialRoot  common.Hash                     // mainnet / rollup exit root the GER contract reports before the first deposit / verification
 	mainRoots    []common.Hash
 	l2Roots      []common.Hash
 	mainFront    ref.Frontier
@@ -64,7 +65,7 @@ type c12Info struct {
 }
 
 func newC12World() (*c12World, error) {
-	w := &c12World{rollupLeaves: map[uint32]common.Hash{}, injected: map[common.Hash]uint32{}}
+	w := &c12World{rollupLeaves: map[uint32]common.Hash{}, injected: map[common.Hash]uint32{}, foreignHad: map[uint32]map[common.Hash]bool{}}
 	var err error
 	mk := func(n string) string {
 		p, c := tmpDB(n)
@@ -195,6 +196,17 @@ func c12Gen(rt *rapid.T, w *c12World) error {
 		case "verifyForeign":
 			id := uint32(rapid.IntRange(2, 4).Draw(rt, "foreignID"))
 			h := genHash.Draw(rt, "foreignLER")
+			if rapid.IntRange(0, 3).Draw(rt, "foreignSpecialLER") == 0 {
+				// e.g. a neighbour that settles before its first bridge exit reports the root of an empty exit tree; a rollup
+				// never returns to a value it had before (its exit tree only grows, and the root table is keyed by the hash)
+				if sp := rapid.SampledFrom(specialExitRoots).Draw(rt, "foreignSpecial"); !w.foreignHad[id][sp] {
+					h = sp
+				}
+			}
+			if w.foreignHad[id] == nil {
+				w.foreignHad[id] = map[common.Hash]bool{}
+			}
+			w.foreignHad[id][h] = true
 			w.rollupLeaves[id] = h
 			w.pendingL1 = append(w.pendingL1, l1infotreesync.Event{VerifyBatches: &l1infotreesync.VerifyBatches{BlockPosition: w.pos, RollupID: id, NumBatch: 1, StateRoot: common.Hash{3}, ExitRoot: h, Aggregator: common.Address{4}}})
 			w.pos++
